@@ -461,7 +461,27 @@ func (c *nfsClient) hostile(rng *rand.Rand, dirFH []byte) []*nfs.Compound4res {
 		seq := func(session [16]byte, slot, seqid uint32) nfs.NfsArgop4 {
 			return &nfs.NfsArgop4_OP_SEQUENCE{Opsequence: nfs.Sequence4args{SaSessionid: session, SaSequenceid: seqid, SaSlotid: slot, SaCachethis: true}}
 		}
-		switch rng.IntN(7) {
+		switch rng.IntN(9) {
+		case 7: // BIND_CONN_TO_SESSION, known and unknown session
+			bad := c.session
+			bad[5] ^= 0xff
+			return []*nfs.Compound4res{
+				c.w.compound(1, &nfs.NfsArgop4_OP_BIND_CONN_TO_SESSION{OpbindConnToSession: nfs.BindConnToSession4args{BctsaSessid: c.session, BctsaDir: nfs.CDFC4_FORE}}),
+				c.w.compound(1, &nfs.NfsArgop4_OP_BIND_CONN_TO_SESSION{OpbindConnToSession: nfs.BindConnToSession4args{BctsaSessid: bad, BctsaDir: nfs.CDFC4_FORE}}),
+			}
+		case 8: // FREE_STATEID of lock states (with or without locks held) and of an unknown state
+			var out []*nfs.Compound4res
+			for _, st := range c.liveOpens() {
+				if st.lockID != nil {
+					res := c.run(0, &nfs.NfsArgop4_OP_FREE_STATEID{OpfreeStateid: nfs.FreeStateid4args{FsaStateid: *st.lockID}})
+					if res.Status == nfs.NFS4_OK {
+						st.lockID = nil
+					}
+					out = append(out, res)
+					break
+				}
+			}
+			return append(out, c.run(0, &nfs.NfsArgop4_OP_FREE_STATEID{OpfreeStateid: nfs.FreeStateid4args{FsaStateid: nfs.Stateid4{Seqid: 1, Other: [12]byte{9, 9, 9}}}}))
 		case 0: // slot outside the session
 			return []*nfs.Compound4res{c.w.compound(1, seq(c.session, 99, 1), putfh(nil))}
 		case 1: // sequence far ahead
